@@ -241,12 +241,29 @@ WTNode(n) ==
 RECURSIVE InterAll(_)
 InterAll(S) == IF S = {} THEN Base ELSE LET s == CHOOSE x \in S : TRUE IN s \cap InterAll(S \ {s})
 
+\* occurrences of references with the quantifier that binds their root variable (<<>> when the root is free):
+\* a quantified variable is a different reference in each quantifier that binds that name
+RootOf(x) == IF x.cls = "HplFieldAccess" THEN x.message ELSE IF x.cls = "HplArrayAccess" THEN x.array ELSE x
+RECURSIVE BaseOf(_)
+BaseOf(x) == IF IsAccessor(x) THEN BaseOf(RootOf(x)) ELSE x
+RECURSIVE ScopedRefs(_, _)
+\* scope: function bound variable name -> stripped binding quantifier
+ScopedRefs(n, scope) ==
+  (IF IsRef(n)
+   THEN LET b == BaseOf(n) IN
+        {<<Strip(n), IF b.cls = "HplVarReference" /\ b.name \in DOMAIN scope THEN <<scope[b.name]>> ELSE <<>>, DT(n)>>}
+   ELSE {})
+  \cup (IF n.cls = "HplQuantifier"
+        THEN ScopedRefs(n.domain, scope)
+             \cup ScopedRefs(n.condition, [y \in (DOMAIN scope) \cup {n.variable} |-> IF y = n.variable THEN Strip(n) ELSE scope[y]])
+        ELSE UNION {ScopedRefs(Kids(n)[i], scope) : i \in 1..Len(Kids(n))})
+
 WTPredicate(p) ==
   IF p.cls = "HplPredicateExpression" THEN
        (IF DT(p.expression) = T_BOOL THEN {} ELSE {"PredicateRootBool"})
-       \cup (LET refs == {x \in Nodes(p.expression) : IsRef(x)}
-                 keys == {Strip(x) : x \in refs}
-             IN IF \A k \in keys : InterAll({DT(x) : x \in {y \in refs : Strip(y) = k}}) # {}
+       \cup (LET refs == ScopedRefs(p.expression, [y \in {} |-> 0])
+                 keys == {<<r[1], r[2]>> : r \in refs}
+             IN IF \A k \in keys : InterAll({r[3] : r \in {q \in refs : <<q[1], q[2]>> = k}}) # {}
                 THEN {} ELSE {"SameRefCompatible"})
   ELSE {}
 
